@@ -2269,6 +2269,10 @@ def _verify_dominances_hyperparameters(dominances, dominance_type,
                        "Seeing constraint tuple %s" %
                        (dominance_type.capitalize(), constraint))
     dominant_dim, weak_dim = constraint
+    if dominant_dim == weak_dim:
+      raise ValueError("%s dominance constraint must relate two different "
+                       "features. Seeing constraint tuple %s" %
+                       (dominance_type.capitalize(), constraint))
     if (dominant_dim >= num_input_dims or weak_dim >= num_input_dims or
         dominant_dim < 0 or weak_dim < 0):
       raise ValueError("Dimensions constrained by %s dominance constraints are "
